@@ -190,6 +190,31 @@ def evalRoute (p : Pending) (glob : Oracle) (obsToks : List String) : String :=
   let head := s!"RES {p.prop} {p.id} eq={b eq} hm={b hm} hi={b hi} miss={b miss} crash={b (obsToks.contains "crash")}"
   if eq && hi && hm && !miss then head else head ++ " | " ++ showLog pm ++ " | " ++ showLog pi
 
+/-! language `auth` -/
+
+def evalAuth (p : Pending) (glob : Oracle) (obsToks : List String) : String :=
+  let ora : Oracle := { urls := glob.urls ++ p.ora.urls, pages := glob.pages ++ p.ora.pages, misc := p.ora.misc }
+  let sc : C09.AuthScn := p.toks.foldl (fun (a : C09.AuthScn) t =>
+    match fields t with
+    | ["cred", u, pw] => { a with table := a.table ++ [(unhex u, unhex pw)] }
+    | ["realm", r] => { a with realm := unhex r }
+    | ["head", h] => { a with head := unhex h }
+    | _ => a) { table := [], realm := [], head := [] }
+  let env := ora.env
+  let mlog := (Scenario.run env sc.scenario).log
+  let ilog := (obsToks.filter (· != "end")).filterMap parseObs
+  let badTok := obsToks.filter (fun t => t != "end" && (parseObs t).isNone)
+  let keepR (o : Obs) : Bool := match o with | .del => false | .dc => false | .hp => false | _ => true
+  let pm := mergeW (mlog.filter keepR)
+  let pi := mergeW (ilog.filter keepR)
+  let eq := pm == pi
+  let hm := C09.holds env sc mlog
+  let hi := C09.holds env sc ilog
+  let miss := containsMiss mlog || !badTok.isEmpty
+  let b (x : Bool) := if x then "1" else "0"
+  let head := s!"RES {p.prop} {p.id} eq={b eq} hm={b hm} hi={b hi} miss={b miss} crash={b (obsToks.contains "crash")}"
+  if eq && hi && hm && !miss then head else head ++ " | " ++ showLog pm ++ " | " ++ showLog pi
+
 partial def loop (h : IO.FS.Stream) (glob : Oracle) (cur : Pending) : IO Unit := do
   let line ← h.getLine
   if line.isEmpty then return ()
@@ -206,6 +231,7 @@ partial def loop (h : IO.FS.Stream) (glob : Oracle) (cur : Pending) : IO Unit :=
       | "sock" => evalSock cur glob rest
       | "range" => evalRange cur rest
       | "route" => evalRoute cur glob rest
+      | "auth" => evalAuth cur glob rest
       | l => s!"RES {cur.prop} {cur.id} eq=0 hm=0 hi=0 miss=1 crash=0 | unknown language {l}"
     IO.println out
     loop h glob cur
